@@ -152,8 +152,113 @@ fn controller(ctx: Arc<Ctx>, opts: ExecOpts) -> ExecStats {
     }
 }
 
+/// A schedule dictated by a TLC behaviour of MCShred: the order of Finish / PanicIn steps;
+/// before each one the set of systems held inside run must be the model's running set.
+#[derive(Clone, Debug, Default)]
+pub struct Forced {
+    /// ("F"|"E"|"P", gid)
+    pub steps: Vec<(String, usize)>,
+}
+
+#[derive(Default, Debug, Clone)]
+pub struct ForcedStats {
+    pub releases: usize,
+    /// releases at which the held set differed from the model's running set
+    pub runset_mismatch: usize,
+    /// prescribed system did not arrive in time: something else was released (S8)
+    pub deviations: usize,
+}
+
+fn forced_controller(ctx: Arc<Ctx>, f: Forced, quiet_us: u64) -> ForcedStats {
+    let quiet = Duration::from_micros(quiet_us);
+    let mut stats = ForcedStats::default();
+    let mut expect: Vec<usize> = Vec::new();
+    let mut g = ctx.gate.lock().unwrap();
+    for (kind, s) in f.steps.iter() {
+        if kind == "F" {
+            expect.push(*s);
+            continue;
+        }
+        // wait until the prescribed system is held and the held set is stable
+        let t0 = Instant::now();
+        let mut ok = false;
+        loop {
+            if g.done {
+                break;
+            }
+            let n = g.waiting.len();
+            let arr = g.arrivals;
+            let (g2, to) = ctx.cv.wait_timeout(g, quiet).unwrap();
+            g = g2;
+            let stable = g.waiting.len() == n && g.arrivals == arr && to.timed_out();
+            if stable && g.waiting.contains(s) {
+                ok = true;
+                break;
+            }
+            if t0.elapsed() > Duration::from_millis(1500) {
+                break;
+            }
+        }
+        if g.done {
+            break;
+        }
+        let mut held: Vec<usize> = g.waiting.iter().copied().filter(|x| !g.released.contains(x)).collect();
+        held.sort();
+        let mut exp = expect.clone();
+        exp.sort();
+        if held != exp {
+            stats.runset_mismatch += 1;
+        }
+        if ok {
+            g.released.insert(*s);
+            expect.retain(|x| x != s);
+        } else {
+            // schedule deviation: not a verdict; let things move on
+            stats.deviations += 1;
+            if let Some(x) = held.first() {
+                g.released.insert(*x);
+                expect.retain(|y| y != x);
+            }
+        }
+        stats.releases += 1;
+        ctx.cv.notify_all();
+    }
+    // drain whatever is left (after a deviation the rest of the schedule is free-running)
+    loop {
+        if g.done && g.waiting.is_empty() {
+            return stats;
+        }
+        let pending: Vec<usize> = g.waiting.iter().copied().filter(|x| !g.released.contains(x)).collect();
+        for x in pending {
+            g.released.insert(x);
+        }
+        ctx.cv.notify_all();
+        let (g2, _) = ctx.cv.wait_timeout(g, quiet).unwrap();
+        g = g2;
+    }
+}
+
+/// One top-level dispatch under a forced schedule.
+pub fn run_dispatch_forced(r: &mut Recorded, world: &World, mode: Mode, f: &Forced, quiet_us: u64) -> ForcedStats {
+    let opts = ExecOpts {
+        mode,
+        gated: true,
+        quiet_us,
+        seed: 0,
+        jitter_us: 0,
+        panics: f.steps.iter().filter(|(k, _)| k == "P").map(|(_, s)| *s).collect(),
+        policy: 0,
+    };
+    let (_, fs) = run_dispatch_with(r, world, &opts, Some(f.clone()));
+    fs
+}
+
 /// One top-level dispatch call, recorded as begin .. end.
 pub fn run_dispatch(r: &mut Recorded, world: &World, opts: &ExecOpts) -> ExecStats {
+    run_dispatch_with(r, world, opts, None).0
+}
+
+fn run_dispatch_with(r: &mut Recorded, world: &World, opts: &ExecOpts, forced: Option<Forced>) -> (ExecStats, ForcedStats) {
     let ctx = r.rec.ctx.clone();
     ctx.claim_caller();
     ctx.log_exec.store(true, Ordering::Relaxed);
@@ -168,7 +273,13 @@ pub fn run_dispatch(r: &mut Recorded, world: &World, opts: &ExecOpts) -> ExecSta
         *g = Gate::default();
         g.enabled = opts.gated;
     }
-    let sched = if opts.gated {
+    let mut fsched = None;
+    let sched = if let Some(f) = forced {
+        let c = ctx.clone();
+        let q = opts.quiet_us;
+        fsched = Some(std::thread::spawn(move || forced_controller(c, f, q)));
+        None
+    } else if opts.gated {
         let c = ctx.clone();
         let o = opts.clone();
         Some(std::thread::spawn(move || controller(c, o)))
@@ -192,6 +303,7 @@ pub fn run_dispatch(r: &mut Recorded, world: &World, opts: &ExecOpts) -> ExecSta
         ctx.cv.notify_all();
     }
     let stats = sched.map(|h| h.join().unwrap()).unwrap_or_default();
+    let fstats = fsched.map(|h| h.join().unwrap()).unwrap_or_default();
     {
         let mut g = ctx.gate.lock().unwrap();
         g.enabled = false;
@@ -212,7 +324,7 @@ pub fn run_dispatch(r: &mut Recorded, world: &World, opts: &ExecOpts) -> ExecSta
     ctx.ev(json!({"ev":"end","d":r.top,"res":resk,"who":who,"msg":msg,"rid":rid,"val":val,"free":free}));
     let mut evs = ctx.take_log();
     r.rec.events.append(&mut evs);
-    stats
+    (stats, fstats)
 }
 
 /// C13: Dispatcher::setup on a world in which `pre` already exist (distinctive values),
